@@ -66,9 +66,11 @@ SUBEV_RULE = (" subscription-events: hubs with subscription tracking on (every 7
 
 PROPS = {
     "C03": {
-        "stages": [{"kind": "cases", "name": "token-mutations", "driver": "C03", "n": {"quick": 60, "thorough": 600}}],
+        "stages": [{"kind": "cases", "name": "token-mutations", "driver": "C03", "n": {"quick": 80, "thorough": 600}}],
         "rule": "hubs configured with every algorithm family it accepts (HS256/384/512, RS256/512, ES256/384, EdDSA; fresh keys per run), publisher and subscriber keys "
-                "different, anonymous on and off; for every draw a valid token (exp/nbf offsets 0, +-2 s, +-1 h) issued for one of the two roles and one mutation among: "
+                "different - of another algorithm, or another key of the same algorithm -, anonymous on and off; the credential travels in the Authorization header, the "
+                "authorization query parameter or the cookie; the first 18 draws of every hub are systematic (a token correctly signed for the endpoint's role but expired / "
+                "not yet valid, on each endpoint through each carrier); for every draw a valid token (exp/nbf offsets 0, +-2 s, +-1 h) issued for one of the two roles and one mutation among: "
                 "alg none (with/without signature), lower-case alg, HMAC keyed with the public PEM / a guessed secret, correctly signed with another family's key, "
                 "truncated / empty / padded / std-alphabet signature, 2 or 4 segments, doubled separator, swapped segments, re-encoded payload, one base64 character "
                 "flipped in each segment; sent to the publish, subscribe or subscription-API endpoint. An independent verifier (Go crypto/* and encoding/base64 directly, "
@@ -98,14 +100,14 @@ PROPS = {
                 "UnmarshalCaddyfile / strict JSON -> Provision with a caddy.Context; NewHubFromViper) and, when accepted, probed through its handler: which of 11 candidate "
                 "(key, algorithm) tokens publish, which subscribe, anonymous subscription, subscription API present, the cookie name consulted (valid / garbage token under 4 names), "
                 "CORS header and cookie-authenticated publish from 4 origins, a public publish outside the publish claim (compatibility 7); plus the effective options struct "
-                "(timeouts, transport type, origins, cookie, flags) read through an accessor added at build time. Compared with Model/Config.v and judged by cfg_spec_ok "
+                "(timeouts, transport type, origins, cookie, flags) read through an accessor added at build time; MERCURE_TRANSPORT_URL is set in the environment in 20% of the cases. Compared with Model/Config.v and judged by cfg_spec_ok "
                 "(every permission in effect was asked for; refusals where required). non-trivial = accepted configuration",
         "trusted": ["caddyfile tokenizer, caddy.Context module loading, viper: glue exercised by the differential run only",
                     "key_ok / origin_ok oracles: tables computed by the harness's own rules (HMAC any key; RS256 iff the key is the RSA PEM; scheme://host[:port], * or null)",
                     "golang-jwt signs the candidate tokens; token verification itself is C03",
                     "two read-only accessors overlaid at build time (harness_caddy/overlay): mercure.VerifOptions, caddy.VerifHub"],
-        "assumptions": ["keys and arguments contain no Caddy placeholder ({...}) and no double quote", "one transport style (module or transport_url) per configuration; "
-                        "MERCURE_TRANSPORT_URL unset; JWKS URLs, demo/ui, lru_cache not modelled"],
+        "assumptions": ["keys and arguments contain no known Caddy placeholder ({env.X}, ...) and no double quote (a brace group that is not a placeholder is covered)", "one transport style (module or transport_url) per configuration; "
+                        "JWKS URLs, demo/ui, lru_cache not modelled"],
     },
     "C16": {
         "binaries": ["verif26"],
@@ -126,8 +128,10 @@ PROPS = {
             "rule": HUB_RULE + TRANS_RULE + " index: the operation histories of C05 against the real SubscriberList (private bit, claims, topics with the delimiter / escape characters): "
                     "who is handed a private update is decided there." + SUBEV_RULE, "trusted": HUB_TRUST + ["matching itself: C05/C11; token verification: C03"], "assumptions": []},
     "C06": {"binaries": ["verifh", "verifs", "verifr"],
-            "stages": [TRANS_STAGE, SUB_STAGES[1], HUB_STAGE, RACE_STAGE],
-            "rule": TRANS_RULE.strip() + " schedules: " + SUB_RULE + " hub-histories: " + HUB_RULE + " race-stress: unsteered concurrent publishers and subscribers on both transports under the Go race detector (supporting search).",
+            "stages": [TRANS_STAGE, SUB_STAGES[1], HUB_STAGE, {"kind": "cases", "name": "shared-ids", "driver": "DUPID", "n": {"quick": 60, "thorough": 600}}, RACE_STAGE],
+            "rule": TRANS_RULE.strip() + " schedules: " + SUB_RULE + " hub-histories: " + HUB_RULE + " shared-ids: 2-9 publishes whose ids are drawn from a pool of four (one of them "
+                    "empty) and repeat the previous one half of the time, payloads distinct; the payloads on the stream of a subscriber connected before, and (Bolt) of one replaying "
+                    "from 'earliest' afterwards, must be the published ones, once each, in order (the models identify an update by its id: this stage covers what that abstraction hides). race-stress: unsteered concurrent publishers and subscribers on both transports under the Go race detector (supporting search).",
             "trusted": HUB_TRUST + ["yieldify rewriter + cooperative scheduler (harness/cmd/yieldify, harness/overlay/zz_vsched.go.txt) for the schedule-steered stage"],
             "assumptions": ["published update ids are distinct and below 2^40 (the model's range for subscription-event ids); exactly-once is stated for distinct ids",
                             ]},
